@@ -25,6 +25,7 @@ var shapeKey = map[string]string{
 	"F3":   "F3:min-max-with-arity-other-than-2",
 	"C08a": "C08a:return-edge-index-beyond-number-of-return-instructions",
 	"C08b": "C08b:extract-of-commaok-tuple-drops-call-result-index",
+	"C08c": "C08c:call-argument-edge-only-to-first-position-of-a-repeated-value",
 }
 
 var shapeWhat = map[string]string{
@@ -32,6 +33,7 @@ var shapeWhat = map[string]string{
 	"F3":   "min/max with a number of operands other than 2 is declared handled (no call node) but no operand is transferred to the result",
 	"C08a": "addReturnEdge compares the tuple index with the number of return instructions: edges into result #k are dropped when k > number of return statements",
 	"C08b": "extract #0 of a comma-ok TypeAssert/receive tuple filters marks by tuple index: a call-result mark with index != 0 does not pass",
+	"C08c": "addCallArgEdge locates the argument node by SSA value (FindArg): when one value is passed at two positions of a call only the first argument node gets the incoming edges",
 }
 
 var handledNames = map[string]bool{"ssa:wrapnilchk": true, "append": true, "len": true, "close": true, "delete": true,
@@ -73,12 +75,22 @@ func (d *fnDump) classifyFailure(f failure) string {
 	case "edge":
 		at, dst := atoi(f.kv["at"]), uint32(atoi(f.kv["dst"]))
 		for _, t := range d.targets {
-			if t.loc != at || t.kind != "return" {
+			if t.loc != at {
 				continue
 			}
 			for _, n := range t.nodes {
-				if n == dst && t.pos > d.nReturns {
+				if n != dst {
+					continue
+				}
+				if t.kind == "return" && t.pos > d.nReturns {
 					return "C08a"
+				}
+				if t.kind == "arg" {
+					for _, t0 := range d.targets {
+						if t0.loc == at && t0.kind == "arg" && t0.val == t.val && t0.pos < t.pos {
+							return "C08c"
+						}
+					}
 				}
 			}
 		}
@@ -135,7 +147,7 @@ var reportedRe = regexp.MustCompile(`//\s*reported`)
 // through the criterion machinery. Returns the shapes the criterion flagged per finding id.
 func runCorpus(rep *lib.Report) {
 	root := filepath.Join(lib.Root(), "corpus", "findings")
-	for _, name := range []string{"F02_F03_builtins", "C08a_return_index", "C08b_commaok_extract"} {
+	for _, name := range []string{"F02_F03_builtins", "C08a_return_index", "C08b_commaok_extract", "C08c_dup_arg_value"} {
 		srcB, err := os.ReadFile(filepath.Join(root, name, "main.go"))
 		if err != nil {
 			rep.Fail("corpus-missing:"+name, "replay input missing: "+err.Error(), nil, true)
